@@ -83,10 +83,10 @@ func c11Scenarios(tier string) []Scenario {
 	add := func(s *ClientScenario, fam string) {
 		sortDgs(s.Dgs)
 		s.Bound = 2
-		if thorough {
-			s.Bound = 3
+		if thorough && len(s.Dgs) <= 1 {
+			s.Bound = 3 // three preemptions where the traffic is at most one datagram (2e8 executions did not finish in 90 min with bound 3 everywhere)
 		}
-		if len(s.Dgs) >= 4 {
+		if len(s.Dgs) >= 4 && !thorough {
 			s.Bound--
 		}
 		if s.Tries >= 3 && !thorough && s.Bound > 1 {
